@@ -24,6 +24,8 @@ type faultSink struct {
 	k, mode   int
 	calls     int
 	triggered bool
+	curCall   int // index of the writer call in progress (set by the harness)
+	trigCall  int // writer call during which the fault first struck
 }
 
 func (s *faultSink) Write(p []byte) (int, error) {
@@ -31,6 +33,9 @@ func (s *faultSink) Write(p []byte) (int, error) {
 	fail := s.calls == s.k || (s.calls > s.k && (s.mode == 1 || s.mode == 3) && s.k > 0)
 	if !fail || s.k <= 0 {
 		return s.buf.Write(p)
+	}
+	if !s.triggered {
+		s.trigCall = s.curCall
 	}
 	s.triggered = true
 	if s.mode >= 2 && len(p) > 1 {
@@ -58,6 +63,7 @@ type wcloser interface {
 
 // runSinkHistory drives one writer over a history against a faulty sink.
 func runSinkHistory(writer string, mk func(w io.Writer) (wcloser, error), hist []string, s *faultSink) (calls []callRes, newErr error, panicked string) {
+	calls = make([]callRes, 0, len(hist))
 	defer func() {
 		if p := recover(); p != nil {
 			panicked = fmt.Sprint(p)
@@ -68,6 +74,7 @@ func runSinkHistory(writer string, mk func(w io.Writer) (wcloser, error), hist [
 		return nil, err, ""
 	}
 	for _, h := range hist {
+		s.curCall = len(calls)
 		switch h[0] {
 		case 'w':
 			p := unhxe(h[1:])
@@ -166,13 +173,24 @@ func checkC09(a *checkArgs, r *Result) error {
 				c.BlockSize = 100 + int64(rng.Intn(300))
 			}
 			if i%4 == 0 {
-				c.DictCap = 4096 // ring smaller than a chunk: wrapped CopyN
+				// ring a little larger than a chunk and more data than the ring holds: the raw-chunk
+				// copy out of the encoder dictionary wraps around the ring's end (two sink writes)
+				c.DictCap, c.BufSize, c.BlockSize = 65536, 4096, 0
+				big := genRandom(rng, 200000)
+				hist = append([]string{"w" + hxe(big)}, hist...)
+				data = append(big, data...)
 			}
 			cfg := c.config()
 			bases = append(bases, base{"xz", fmt.Sprintf("xz/%d", i), c.String(), func(w io.Writer) (wcloser, error) { return cfg.NewWriter(w) }, hist, data})
 		case 1:
 			t := lclppb[rng.Intn(len(lclppb))]
 			cfg := lzma.Writer2Config{Properties: &lzma.Properties{LC: t[0], LP: t[1], PB: t[2]}, DictCap: []int{4096, 65536}[rng.Intn(2)], BufSize: 4096}
+			if i%4 == 1 {
+				cfg.DictCap = 65536
+				big := genRandom(rng, 180000)
+				hist = append([]string{"w" + hxe(big)}, hist...)
+				data = append(big, data...)
+			}
 			bases = append(bases, base{"lzma2", fmt.Sprintf("lzma2/%d", i), fmt.Sprintf("%+v dict%d", *cfg.Properties, cfg.DictCap), func(w io.Writer) (wcloser, error) { return cfg.NewWriter2(w) }, hist, data})
 		default:
 			cfg := lzma.WriterConfig{DictCap: 4096, EOSMarker: true}
@@ -220,7 +238,34 @@ func checkC09(a *checkArgs, r *Result) error {
 				return
 			}
 			anyErr := nerr != nil
-			for _, c := range calls {
+			// the failure must surface in the call during which the sink failed or in a later one, up
+			// to and including the next Close; a redundant Close after a successful one fails with
+			// errClosed whatever happened before and does not count
+			kinds := []byte{}
+			for _, h := range j.b.hist {
+				if h[0] == 'f' && j.b.writer != "lzma2" {
+					continue // classic and xz writers have no Flush: the entry produced no call
+				}
+				kinds = append(kinds, h[0])
+			}
+			from, upto := 0, len(calls)
+			if s.triggered && nerr == nil {
+				from = s.trigCall
+				for ci := from; ci < len(kinds) && ci < len(calls); ci++ {
+					if kinds[ci] == 'c' {
+						upto = ci + 1
+						break
+					}
+				}
+			}
+			for ci, c := range calls {
+				if ci < from || ci >= upto {
+					if c.Err == "Panic" {
+						r.Violate("counterexample", fmt.Sprintf("panic writer=%s: %s", j.b.writer, truncate(c.Panic, 60)), cs, "a call panicked: "+c.Panic)
+						return
+					}
+					continue
+				}
 				if c.Err == "Panic" {
 					r.Violate("counterexample", fmt.Sprintf("panic writer=%s: %s", j.b.writer, truncate(c.Panic, 60)), cs, "a call panicked after the sink failure: "+c.Panic)
 					return
